@@ -24,7 +24,7 @@ ASSUMPTIONS = ['vlib/spec/layouts.py is a hand-written specification (trusted)',
                'the emptied 10x whitelist is replaced by a generated one in a scratch barcode directory']
 MIN_NONTRIVIAL = {'quick': 3000, 'thorough': 150000}
 REQUIRED_MONITORS = ['hook:target.write', 'hook:reject.write', 'check:tags', 'check:emitted', 'check:serialised', 'cli:runs', 'cli:pairs_checked',
-                     'input:filelist', 'input:chunked_lanes', 'input:last_line_without_newline']
+                     'input:filelist', 'input:chunked_lanes', 'input:last_line_without_newline', 'input:fastq_form:crlf', 'input:fastq_form:plusname']
 SHARD_TIMEOUT = {'quick': 600, 'thorough': 3600}
 
 
@@ -65,6 +65,7 @@ def get_env(d, r, k):
 class SinkSpy:
     def __init__(self, acc, name):
         self.acc, self.name, self.calls = acc, name, []
+        self.fail_every, self.attempts = None, 0
 
     def wrap(self, handle):
         orig = handle.write
@@ -72,8 +73,13 @@ class SinkSpy:
 
         def write(records):
             spy.acc.count(f'hook:{spy.name}.write')
+            spy.attempts += 1
+            if spy.fail_every and spy.attempts % spy.fail_every == 0:
+                import errno as _errno
+                raise OSError(_errno.EIO, 'Input/output error (injected)')
+            res = orig(records)       # a write that raises has written nothing: only completed calls are recorded
             spy.calls.append(records)
-            return orig(records)
+            return res
         handle.write = write
         return handle
 
@@ -259,7 +265,9 @@ def run_case(case):
         files = [os.path.join(d, 'in_R1.fastq.gz')] + ([] if single else [os.path.join(d, 'in_R2.fastq.gz')])
         unterminated = r.random() < 0.3
         acc.count('input:last_line_without_newline', 1 if unterminated else 0)
-        fq.write_fastq(files, pairs, final_newline=not unterminated)
+        form = ['plain', 'plain', 'crlf', 'plusname'][(__import__('zlib').crc32(name.encode()) + k + case['rep']) % 4]
+        acc.count('input:fastq_form:' + form)
+        fq.write_fastq(files, pairs, final_newline=not unterminated, form=form)
         tspy, rspy = SinkSpy(acc, 'target'), SinkSpy(acc, 'reject')
         target = tspy.wrap(FastqHandle(os.path.join(d, 'demultiplexed'), not single))
         reject = rspy.wrap(FastqHandle(os.path.join(d, 'rejects'), not single))
